@@ -106,3 +106,60 @@ theorem maskWord_eq (syscalls : List Nat) (w : Nat) :
   exact foldl_range_bitSum _ 32
 
 end LA.Rule
+
+namespace LA.Rule
+open LA LA.Spec.RuleLayout
+
+theorem words_length {b : Bytes} {off n : Nat} {l : List Nat} (h : words b off n = some l) : l.length = n := by
+  induction n generalizing off l with
+  | zero => simp [words] at h; subst h; rfl
+  | succ n ih =>
+    simp only [words] at h
+    cases hw : word b off with
+    | none => simp [hw] at h
+    | some w =>
+      cases hr : words b (off + 4) n with
+      | none => simp [hw, hr] at h
+      | some ws =>
+        simp [hw, hr] at h
+        subst h
+        simp [ih hr]
+
+theorem words_add (b : Bytes) (off n m : Nat) :
+    words b off (n + m) =
+      match words b off n, words b (off + 4 * n) m with
+      | some a, some c => some (a ++ c)
+      | _, _ => none := by
+  induction n generalizing off with
+  | zero => simp [words]; cases words b off m <;> rfl
+  | succ n ih =>
+    have e : n + 1 + m = (n + m) + 1 := by omega
+    rw [e]
+    simp only [words]
+    rw [ih (off + 4)]
+    have e2 : off + 4 + 4 * n = off + 4 * (n + 1) := by omega
+    rw [e2]
+    cases word b off <;> cases words b (off + 4) n <;> cases words b (off + 4 * (n + 1)) m <;> simp
+
+/-- splitting a successful read of n + m words. -/
+theorem words_split {b : Bytes} {off n m : Nat} {l : List Nat} (h : words b off (n + m) = some l) :
+    words b off n = some (l.take n) ∧ words b (off + 4 * n) m = some (l.drop n) := by
+  rw [words_add] at h
+  cases ha : words b off n with
+  | none => simp [ha] at h
+  | some a =>
+    cases hc : words b (off + 4 * n) m with
+    | none => simp [ha, hc] at h
+    | some c =>
+      simp [ha, hc] at h
+      subst h
+      have := words_length ha
+      simp [← this]
+
+theorem word_of_words1 {b : Bytes} {off : Nat} {w : Nat} (h : words b off 1 = some [w]) : word b off = some w := by
+  simp only [words] at h
+  cases hw : word b off with
+  | none => simp [hw] at h
+  | some x => simp [hw] at h; rw [h]
+
+end LA.Rule
